@@ -344,6 +344,11 @@ def r2(F, R):
                     adt = st["rv"]["adt"]
                     if adt not in F.adts:
                         continue
+                    # only the storage objects themselves hold one container per lane (a helper record such as a CSV column
+                    # description legitimately has several strings of one lane)
+                    if not any(i.get("trait") and path_ends(i["trait"], ("ChainStorage", "TraceStorage")[0]) and strip_generics(i.get("self_adt") or "") == strip_generics(adt) for i in F.impls) and \
+                       not any(i.get("trait") and path_ends(i["trait"], "TraceStorage") and strip_generics(i.get("self_adt") or "") == strip_generics(adt) for i in F.impls):
+                        continue
                     fields = st["rv"]["fields"]
                     ftypes = {f["name"]: f["ty"] for v in F.adts[adt]["variants"] for f in v["fields"]}
                     labs = {}
